@@ -383,6 +383,7 @@ func buildSchema(root Node, env Env, keysOptional bool, mesh bool) (*jschema.Sch
 		rules[i] = enum.New(e.Name, renderEnum(e.Items))
 	}
 	all := append([]*jschema.Schema{s}, types...)
+	// rules first: AddRule is refused once a schema has been loaded, and AddType loads
 	for k, target := range all {
 		if k > 0 && !mesh {
 			break
@@ -391,6 +392,11 @@ func buildSchema(root Node, env Env, keysOptional bool, mesh bool) (*jschema.Sch
 			if err := target.AddRule(e.Name, rules[i]); err != nil {
 				return nil, rr, err
 			}
+		}
+	}
+	for k, target := range all {
+		if k > 0 && !mesh {
+			break
 		}
 		for i, t := range env.Types {
 			if err := target.AddType(t.Name, types[i]); err != nil {
